@@ -170,6 +170,42 @@ def pbes2_interop(kind: int, ci: int, hi: int, der: bool, pwi: int) -> bool:
         return back.public_data == key.public_data
 
 
+EC_CURVES = ['ecdsa-sha2-nistp256', 'ecdsa-sha2-nistp384', 'ecdsa-sha2-nistp521']
+_ECKEYS = {}
+
+
+def ec_no_public(ci: int, pkcs8: bool, pem: bool) -> bool:
+    """An EC private key file that omits the optional public point (RFC 5915
+    publicKey [1], e.g. written by `openssl ec -no_public`) imports to the same
+    key: same public half, and its exported public key is the real point."""
+    alg = pick(EC_CURVES, ci)
+    with notrace():
+        key = _ECKEYS.get(alg)
+        if key is None:
+            key = _ECKEYS[alg] = asyncssh.generate_private_key(alg)
+        if pkcs8:
+            outer = A.der_decode(key.export_private_key('pkcs8-der'))
+            inner = A.der_decode(outer[2])
+            inner = tuple(x for x in inner if not (isinstance(x, A.TaggedDERObject) and x.tag == 1))
+            data = A.der_encode((outer[0], outer[1], A.der_encode(inner)))
+            label = b'PRIVATE KEY'
+        else:
+            inner = A.der_decode(key.export_private_key('pkcs1-der'))
+            inner = tuple(x for x in inner if not (isinstance(x, A.TaggedDERObject) and x.tag == 1))
+            data = A.der_encode(inner)
+            label = b'EC PRIVATE KEY'
+        if pem:
+            import binascii
+            b64 = binascii.b2a_base64(data, newline=False)
+            data = b'-----BEGIN ' + label + b'-----\n' + b'\n'.join(b64[i:i + 64] for i in range(0, len(b64), 64)) + \
+                b'\n-----END ' + label + b'-----\n'
+        back = asyncssh.import_private_key(data)
+        if back.public_data != key.public_data:
+            return False
+        pub = asyncssh.import_public_key(back.export_public_key('openssh'))
+        return pub.public_data == key.public_data and back.export_private_key('openssh') is not None
+
+
 def _ref_p12(hash_name, passphrase, salt, count, n, idx):
     """RFC 7292 appendix B.2, written out independently"""
     h = lambda d: hashlib.new(hash_name, d).digest()
@@ -301,6 +337,9 @@ OBLIGATIONS = [
     Ob('pbes1_interop', pbes1_interop, sym=dict(si=R(0, 2), der=B, pwi=R(0, 2)), shards=dict(kind=[0, 1, 2]), timeout=300,
        functions=[PBE.pkcs8_encrypt, PBE._pbkdf_p12, PBE._pbkdf1, PK.SSHKey.export_private_key],
        bounds='3 key types x {PKCS#12 SHA1-3DES, PKCS#12 SHA1-RC4-128, PBES1 MD5-DES} x DER/PEM x 3 passphrases (incl. non-ASCII), decoded by PyCA cryptography'),
+    Ob('ec_no_public', ec_no_public, sym=dict(ci=R(0, 2), pkcs8=B, pem=B), timeout=150,
+       functions=['asyncssh.ecdsa._ECKey.decode_pkcs1_private', 'asyncssh.ecdsa._ECKey.decode_pkcs8_private', 'asyncssh.crypto.ec.ECDSAPrivateKey.construct'],
+       bounds='3 NIST curves x SEC1 (PKCS#1-style) / PKCS#8 x DER / PEM, private key re-encoded without the optional public point'),
     Ob('p12_kdf', p12_kdf, sym=dict(n=R(1, 45), idx=R(1, 3), count=R(1, 3), sl=R(1, 9), pwi=R(0, 2)),
        shards=dict(idx=[1, 2, 3], count=[1, 2], sl=[1, 8], pwi=[0, 1, 2]), timeout=200,
        functions=[PBE._pbkdf_p12], bounds='output length 1..45, purpose id 1..3, 1..2 iterations, salt length 1 or 8, 3 passphrases (incl. empty, non-ASCII)'),
